@@ -253,12 +253,26 @@ private:
         return {*e, *search};
     }
 
-    static bool value_ref_fits_into_type(
+    bool value_ref_fits_into_type(
         const sbe::enumeration& e,
         const sbe::enum_valid_value& valid_value,
-        const std::string_view type)
+        const std::string_view type) const
     {
-        if(e.type == "char")
+        // `encodingType` is either a primitive type or a name of a `<type>`,
+        // wrong ones are reported by the enum validation
+        std::string_view enum_primitive_type{e.type};
+        if(!utils::is_primitive_type(e.type))
+        {
+            if(const auto enc = get_encoding(e.type))
+            {
+                if(const auto t = std::get_if<sbe::type>(enc))
+                {
+                    enum_primitive_type = t->primitive_type;
+                }
+            }
+        }
+
+        if(enum_primitive_type == "char")
         {
             const auto underlying_value =
                 std::to_string(static_cast<int>(valid_value.value[0]));
